@@ -21,6 +21,7 @@ class SepConfig:
     dec: Callable[[Any], bytes]  # packet -> payload bytes as they were on the wire
     emptyerr: bool = False
     buffered: bool = True
+    lenient: bool = False  # no byte is undecodable for this configuration: streams with "bad" bytes are not for it
 
     def syms_of(self, packet: Any) -> list[int]:
         out = []
@@ -86,6 +87,22 @@ def configs() -> list[SepConfig]:
                     dec,
                 )
             )
+    # a lenient error handler: bytes that are invalid in the encoding are payload like any other, on every receive path
+    def decl(p: Any) -> bytes:
+        assert isinstance(p, str)
+        return p.replace("\ufffd", "\xff").encode("latin-1")
+
+    out.append(
+        SepConfig(
+            "StringLineSerializer(LF,unicode_errors=replace)",
+            b"\n",
+            lambda limit: StringLineSerializer("LF", limit=limit, encoding="ascii", unicode_errors="replace"),
+            0xFF,
+            0xFE,
+            decl,
+            lenient=True,
+        )
+    )
     for sep in (b"|", b"#$", b"#$%"):
 
         def decb(p: Any) -> bytes:
